@@ -10,6 +10,11 @@ Edges:     spec/MC_InterpEdge.tla -- the same operators on a FINE lattice (milli
 Storage:   spec/TableStorage.tla -- memory order of the axes, element type and holder (array, pickle, HDF5 streamed /
            in memory, object served by OpacityCache) of the table are free dimensions: TLC exports the storage classes,
            the vectors are replayed through every one of them.
+Routes:    spec/ModeRoute.tla -- how the mode reaches a table served by a cache (set_interpolation before / after a load,
+           GlobalCache, nothing set): every cache holder (OpacityCache: pickle, HDF5, Exo-Transmit; KTableCache: pickle,
+           HDF5) is crossed with every exported route.
+Contrast:  spec/MC_InterpContrast.tla -- entries 1, 1e-20, 1e-40 side by side in ONE table (graded exact values):
+           every node (grid edges included), mid-point and outside query, both modes, relative 1e-12 to the value itself.
 """
 import math
 import os
@@ -79,7 +84,7 @@ def logical_table(tn, pn, tabs, unit, layout):
     return wn, np.stack([x, x * 3.0], axis=-1)
 
 
-def build(tn, pn, tabs, mode, unit, layout, xs=1, ys=1, store=None, directory=None):
+def build(tn, pn, tabs, mode, unit, layout, xs=1, ys=1, store=None, directory=None, route=None):
     """One fixture holding len(tabs) tables along the wavenumber axis.  tn, pn: node coordinates on the lattice
     (xs units per kelvin, ys per dex; nodes are whole kelvin / whole decades).  store: a storage class exported by
     TableStorage.tla (memory order, element type, holder), None = C-contiguous float64 array handed directly."""
@@ -88,7 +93,7 @@ def build(tn, pn, tabs, mode, unit, layout, xs=1, ys=1, store=None, directory=No
     temps = [t_of(t, xs) for t in tn]
     if store is not None:
         from ..fx_opacstore import build_store
-        op, closer = build_store(store, directory, wn, temps, press, x, [0.25, 0.75], mode)
+        op, closer = build_store(store, directory, wn, temps, press, x, [0.25, 0.75], mode, route=route['steps'] if route else None)
         op._verif_close = closer
         return op, wn
     if layout == 'xsec':
@@ -139,7 +144,23 @@ def pass_cls(ps):
     st = ps.get('store')
     if st is None:
         return ps['layout']
-    return '%s:store:%s:%s:%s' % (ps['layout'], st['holder'], ''.join(str(a) for a in st['order']), st['dtype'])
+    rt = ':route:' + ps['route']['name'] if ps.get('route') else ''
+    return '%s:store:%s:%s:%s%s' % (ps['layout'], st['holder'], ''.join(str(a) for a in st['order']), st['dtype'], rt)
+
+
+def route_passes(stores, routes, mode):
+    """Storage passes for the vectors of `mode`: every cache holder crossed with every route of ModeRoute.tla that ends
+    with `mode` wanted; the other holders get the mode as a constructor argument."""
+    out = []
+    for st in stores:
+        if st['holder'].startswith('cache_'):
+            mine = [r for r in routes if r['wanted'] == mode]
+            if not mine:
+                raise Machinery('no mode route exported for %r' % mode)
+            out.extend(dict(store_pass(st), route=r) for r in mine)
+        else:
+            out.append(store_pass(st))
+    return out
 
 
 def edge_cls(v):
@@ -175,8 +196,10 @@ def run_vectors(ctx, vecs, label, passes=None, subranges=True, tmpdir=None):
         if ps.get('store') is not None:
             extra['store'] = ps['store']
             extra['tabs'] = tabs        # a replay has to rebuild the whole block: its shape is part of the storage class
+            if ps.get('route'):
+                extra['route'] = ps['route']
         try:
-            op, wn = build(tn, pn, tabs, mode, unit, layout, xs, ys, ps.get('store'), tmpdir)
+            op, wn = build(tn, pn, tabs, mode, unit, layout, xs, ys, ps.get('store'), tmpdir, ps.get('route'))
             err = None
         except Machinery:
             raise
@@ -225,11 +248,14 @@ def one_vector(ctx, v):
     """Replay of a single stored vector."""
     st = v.get('store')
     ps = store_pass(st) if st else dict(layout=v.get('layout', 'xsec'), unit=v.get('unit', 1.0))
+    if st and v.get('route'):
+        ps['route'] = v['route']
     tabs = v.get('tabs') or [v['tab']]
     k = tabs.index(v['tab'])
     tmp = tempfile.mkdtemp(prefix='c04replay_') if st else None
     try:
-        op, wn = build(v['tn'], v['pn'], tabs, v['mode'], ps['unit'], ps['layout'], v.get('xs', 1), v.get('ys', 1), st, tmp)
+        op, wn = build(v['tn'], v['pn'], tabs, v['mode'], ps['unit'], ps['layout'], v.get('xs', 1), v.get('ys', 1), st, tmp,
+                       v.get('route'))
         sub = v.get('sub')
         T, P = t_of(v['x'], v.get('xs', 1)), p_of(v['y'], v.get('ys', 1))
         if sub and len(tabs) > 1:
@@ -248,6 +274,97 @@ def one_vector(ctx, v):
             from ..fixtures import reset_caches
             reset_caches()
             shutil.rmtree(tmp, ignore_errors=True)
+
+
+# ----------------------------------------------------------------------------
+# magnitudes that differ INSIDE one table (spec/MC_InterpContrast.tla): graded vectors
+# ----------------------------------------------------------------------------
+
+DEC = 20            # decades per level of MC_InterpContrast: levels 1, 2, 3 = factors 1, 1e-20, 1e-40
+# Tolerance of a contrast vector, from the arithmetic: the documented forms are sums / products of NON-NEGATIVE terms
+# (no cancellation is needed to evaluate them), i.e. a handful of roundings, < 1e-15 relative to the RESULT ITSELF however
+# small it is next to its neighbours; in exp mode the exponent w ln(a/b), |ln(a/b)| <= ln(37e40) < 96, carries
+# 96 * 2^-52 = 2e-14.  1e-12 relative to the expected value is asserted (not to the largest bracketing node).
+REL_CONTRAST = 1e-12
+
+
+def graded(g):
+    """exact value of a graded tuple exported by TLC"""
+    return sum((frac(c) * Fraction(1, 10 ** (DEC * l)) for l, c in enumerate(g)), Fraction(0))
+
+
+def contrast_table(v):
+    return [[float(Fraction(m, 10 ** (DEC * (l - 1)))) for m, l in zip(mrow, lrow)] for mrow, lrow in zip(v['mant'], v['lev'])]
+
+
+def judge_contrast(v, tab, got):
+    out = []
+    g = got
+    finite = (g == g) and abs(g) != float('inf')
+    rel = REL_CONTRAST
+    a, b, w = graded(v['ga']), graded(v['gb']), frac(v['w'])
+    if w == 0 or v['mode'] == 'linear':
+        exp = float(a)
+    elif w == 1:
+        exp = float(b)
+    else:
+        exp = math.pow(float(a), 1.0 - float(w)) * math.pow(float(b), float(w))
+    hull = [tab[p - 1][t - 1] for p, t in v['hull']]
+    lo, hi = min(hull), max(hull)
+    out.append(('non_negative', finite and g >= 0.0, 'got %r' % g))
+    if v['reg'] == 'zero':
+        out.append(('zero_below_both_minima', finite and (g == 0.0 or lo * (1 - rel) <= g <= hi * (1 + rel)), 'got %r' % g))
+        return out
+    out.append(('bracket_bounded', finite and lo * (1 - rel) <= g <= hi * (1 + rel), 'got %r hull [%r,%r]' % (g, lo, hi)))
+    if v['inside']:
+        out.append(('inside_value_' + v['mode'], finite and close(g, exp, rel=rel, abs_=0.0), 'got %r expected %r' % (g, exp)))
+        if v['nx'] != 'off' and v['ny'] != 'off':
+            node = tab[v['pn'].index(v['y'])][v['tn'].index(v['x'])]
+            out.append(('node_exact', finite and close(g, node, rel=rel, abs_=0.0), 'got %r node %r' % (g, node)))
+    return out
+
+
+def run_contrast(ctx, vecs, label, layouts=('xsec', 'ktable')):
+    """vecs: CVEC records of one (tn, pn, mode).  Every contrast pattern is one table along the wavenumber axis."""
+    if not vecs:
+        raise Machinery('no contrast vectors exported for ' + label)
+    tn, pn, mode = vecs[0]['tn'], vecs[0]['pn'], vecs[0]['mode']
+    pats, tabs = [], []
+    for v in vecs:
+        if v['pat'] not in pats:
+            pats.append(v['pat'])
+            tabs.append(contrast_table(v))
+    byq = {}
+    for v in vecs:
+        byq.setdefault((v['x'], v['y']), {})[pats.index(v['pat'])] = v
+    for (x, y) in byq:
+        if not coords_exact(pn, y):
+            raise Machinery('log10 not faithful for coordinates %r %r' % (pn, y))
+    for layout in layouts:
+        op, wn = build(tn, pn, tabs, mode, 1.0, layout)
+        for (x, y), d in sorted(byq.items()):
+            T, P = t_of(x), p_of(y)
+            shape = (len(tabs),) if layout == 'xsec' else (len(tabs), 2)
+            try:
+                res = np.asarray(op.opacity(T, P), dtype=float)
+                err = None if res.size == int(np.prod(shape)) else 'result of shape %r for %d requested points' % (res.shape, len(tabs))
+            except Exception as e:     # noqa -- the implementation raised for a query inside the quantifier
+                err = '%s: %s' % (type(e).__name__, e)
+            anyv = next(iter(d.values()))
+            ctx.verdict('one_value_per_requested_point', err is None, cls='%s:%s:%s:contrast' % (anyv['reg'], mode, layout),
+                        detail='opacity(T=%r, P=%r): %s' % (T, P, err), vector=dict(anyv, contrast=True, layout=layout))
+            if err is not None:
+                continue
+            res = res.reshape(shape)
+            for k, v in d.items():
+                gots = [res[k]] if layout == 'xsec' else [res[k, 0], res[k, 1] / 3.0]
+                vcls = '%s:%s:%s:contrast:%s:%s/%s%s' % (v['reg'], mode, layout, v['pat'][0], v['nx'], v['ny'], ':w1' if v['w1'] else '')
+                vd = None
+                for got in gots:
+                    for clause, ok, detail in judge_contrast(v, tabs[k], float(got)):
+                        if not ok or vd is None:
+                            vd = dict(v, contrast=True, layout=layout)
+                        ctx.verdict(clause, ok, cls=vcls, detail=detail, vector=vd)
 
 
 def random_events(rng, n, mode):
@@ -470,18 +587,50 @@ def run(ctx):
         run_vectors(ctx, vecs, cfg, passes=passes, subranges=not q)
     ctx.note('edge vectors (queries 1e-6 .. 1e-3 dex / 1e-3 .. 3e-2 K beside every node): %d' % nedge)
 
+    # -- magnitudes that differ inside one table: 1e-40 next to 1, every node (grid edges included), both modes
+    ctx.expect_refuted('contrast: cancelling kernel form loses a node next to a larger one (expected counterexample)',
+                       'MC_InterpContrast', 'XC_InterpContrast_cancelling.cfg', 'NodeExactG', workers=1)
+    ctx.expect_refuted('contrast: open upper temperature edge (expected counterexample)',
+                       'MC_InterpContrast', 'XC_InterpContrast_openT.cfg', 'NodeExactG', workers=1)
+    ctx.check_spec('contrast: closed upper temperature edge (control of the counterexample)', 'MC_InterpContrast',
+                   'MC_InterpContrast_closedT_edge.cfg', workers=1)
+    if not q:
+        ctx.check_spec('contrast: convex kernel form reproduces every node', 'MC_InterpContrast', 'MC_InterpContrast_convex.cfg', workers=1)
+    ncon = 0
+    for cfg in ('EX_InterpContrast_lin.cfg', 'EX_InterpContrast_exp.cfg'):
+        res = ctx.check_spec('export-' + cfg, 'MC_InterpContrast', cfg, workers=1)
+        cvecs = res.tagged('CVEC')
+        have = {(v['nx'], v['ny']) for v in cvecs}
+        for need in (('last', 'first'), ('last', 'off'), ('first', 'last'), ('off', 'last'), ('inner', 'inner'), ('last', 'inner'), ('first', 'first')):
+            if need not in have:
+                raise Machinery('vacuous: no contrast query of node class %r exported by %s' % (need, cfg))
+        if len({tuple(v['pat']) for v in cvecs}) < 10 or not any(l == 3 for v in cvecs for row in v['lev'] for l in row):
+            raise Machinery('vacuous: contrast patterns / 1e-40 level missing in ' + cfg)
+        ncon += len(cvecs)
+        run_contrast(ctx, cvecs, cfg)
+    ctx.note('contrast vectors (entries 1, 1e-20, 1e-40 side by side in one table; all nodes, mid-points, outside): %d' % ncon)
+
     # -- storage classes of the table (memory order of the axes, element type, holder)
     ctx.expect_refuted('memory-order-flatten (expected counterexample)', 'TableStorage', 'XC_TableStorage_memorder.cfg', 'PlaneHandedLogical', workers=1)
     res = ctx.check_spec('export-storage-classes', 'TableStorage', 'EX_TableStorage_%s.cfg' % ctx.tier, workers=1)
     stores = res.tagged('STORE')
     have = {(st['layout'], st['holder']) for st in stores}
-    for lay, holders in (('xsec', ('array', 'pickle', 'hdf5_stream', 'hdf5_memory', 'cache_pickle', 'cache_hdf5')),
-                         ('ktable', ('array', 'pickle', 'hdf5_stream', 'hdf5_memory'))):
+    for lay, holders in (('xsec', ('array', 'pickle', 'hdf5_stream', 'hdf5_memory', 'cache_pickle', 'cache_hdf5', 'cache_exotransmit')),
+                         ('ktable', ('array', 'pickle', 'hdf5_stream', 'hdf5_memory', 'cache_pickle', 'cache_hdf5'))):
         for h in holders:
             if (lay, h) not in have:
                 raise Machinery('vacuous: storage class %s/%s not exported' % (lay, h))
     if not any(st['layout'] == 'ktable' and not st['wnmajor'] for st in stores) or not any(st['dtype'] == 'f4' for st in stores):
         raise Machinery('vacuous: no g-major k-table / no 4-byte storage class exported')
+    # -- how the mode reaches a table served by a cache (spec/ModeRoute.tla): every cache holder x every route
+    ctx.expect_refuted('mode-route: discover() reads a key nobody writes (expected counterexample)', 'ModeRoute', 'XC_ModeRoute_key.cfg',
+                       'ServedModeIsWanted', workers=1)
+    ctx.expect_refuted('mode-route: setter keeps the loaded tables (expected counterexample)', 'ModeRoute', 'XC_ModeRoute_noclear.cfg',
+                       'ServedModeIsWanted', workers=1)
+    routes = ctx.check_spec('export-mode-routes', 'ModeRoute', 'EX_ModeRoute.cfg', workers=1).tagged('ROUTE')
+    for need in ('set_before', 'set_after', 'global_before', 'default'):
+        if not any(r['name'] == need for r in routes):
+            raise Machinery('vacuous: mode route %r not exported' % need)
     from ..fixtures import reset_caches
     tmp = tempfile.mkdtemp(prefix='c04store_')
     nstorevec = 0
@@ -500,10 +649,14 @@ def run(ctx):
                 if len(generic) < 3 or len(chosen) < 5:
                     raise Machinery('storage vectors: generic tables not found')
             nstorevec += len(vecs)
-            run_vectors(ctx, vecs, cfg + ':storage', passes=[store_pass(st) for st in stores], tmpdir=os.path.join(tmp, 's'))
+            run_vectors(ctx, vecs, cfg + ':storage', passes=route_passes(stores, routes, vecs[0]['mode']), tmpdir=os.path.join(tmp, 's'))
     finally:
         reset_caches()
+        from taurex.cache import GlobalCache
+        GlobalCache()['xsec_interpolation'] = None
         shutil.rmtree(tmp, ignore_errors=True)
+    ctx.note('mode routes driven on every cache holder (OpacityCache / KTableCache x pickle / HDF5): %s'
+             % sorted({r['name'] for r in routes}))
     ctx.note('storage classes driven (layout x holder x axis order x element type x magnitude): %d, each through %d vectors (both modes)'
              % (len(stores), nstorevec))
     run_traces(ctx, 1500 if q else 12000, 800 if q else 6000)
@@ -514,7 +667,9 @@ def run(ctx):
 def replay(ctx, violations):
     for v in violations:
         vec = v['vector']
-        if vec.get('trace'):
+        if vec.get('contrast'):
+            run_contrast(ctx, [vec], 'replay', layouts=(vec.get('layout', 'xsec'),))
+        elif vec.get('trace'):
             e = {k: vec[k] for k in ('id', 'tn', 'pn', 'tab', 'x', 'y', 'S', 'mode', 'tol')}
             op, wn = build(e['tn'], e['pn'], [e['tab']], e['mode'], 1.0, 'xsec')
             got = float(np.asarray(op.opacity(float(e['x']), p_of(e['y']))).ravel()[0])
